@@ -13,7 +13,7 @@ import re
 
 from gekko import GEKKO
 
-from vcheck import f2hex
+from vcheck import f2hex, hex2f
 
 
 class RecGEKKO(GEKKO):
@@ -201,14 +201,23 @@ def norm_posted(line: str) -> str:
     return " | ".join(norm_row(x) for x in line.split(" | "))
 
 
+_OPS = {"add": "+", "sub": "-", "mul": "*", "div": "/"}
+
+
 class Canon:
     """names of GEKKO variables -> role tokens; trees -> the `post` reply format."""
 
-    def __init__(self, g: RecGEKKO):
+    def __init__(self, g: RecGEKKO, hyper=()):
+        """`hyper`: indices (in the netlist's edge list) of the nets with other than two pins — FRAME creates two
+        anonymous variables (centre x, centre y) for each, in that order."""
         self.g = g
         self.role = {}
+        anon = 0
         for name, _lb, _ub, gk, _obj in g.rec_vars:
             if name is None:
+                if anon // 2 < len(hyper):
+                    self.role[gk] = ("ex:" if anon % 2 == 0 else "ey:") + str(hyper[anon // 2])
+                anon += 1
                 continue
             kind, rest = name[0], name[2:]
             if kind == "a":
@@ -220,6 +229,21 @@ class Canon:
     def v(self, gk: str):
         return self.role.get(gk)
 
+    def x(self, e):
+        """a sum-free expression in the prefix notation of the driver (`showX`)."""
+        k = e[0]
+        if k == "num":
+            return f"n {f2hex(e[1])}"
+        if k == "var":
+            return f"v {self.v(e[1])}" if self.v(e[1]) else None
+        if k in ("add", "sub", "mul", "div"):
+            a, b = self.x(e[1]), self.x(e[2])
+            return None if a is None or b is None else f"{_OPS[k]} {a} {b}"
+        if k == "pow" and e[2] == ("num", 2.0):
+            a = self.x(e[1])
+            return None if a is None else f"^2 {a}"
+        return None
+
     def t(self, e):
         if e[0] == "num":
             return f"n {f2hex(e[1])}"
@@ -227,7 +251,8 @@ class Canon:
             return f"v {self.v(e[1])}"
         if e[0] == "mul" and e[1][0] == "num" and e[2][0] == "var" and self.v(e[2][1]):
             return f"l {f2hex(e[1][1])} {self.v(e[2][1])}"
-        return None
+        g = self.x(e)
+        return None if g is None else "g " + g
 
     def ts(self, elems):
         out = [self.t(x) for x in elems]
@@ -248,10 +273,14 @@ class Canon:
             return None if s is None else f"K {f2hex(e[1][1])} " + s
         if e[0] == "sub" and e[1][0] == "var" and e[2][0] == "var" and self.v(e[1][1]) and self.v(e[2][1]):
             return f"D {self.v(e[1][1])} {self.v(e[2][1])}"
-        if e[0] == "pow" and e[2] == ("num", 2.0) and e[1][0] == "sub":
+        if e[0] == "pow" and e[2] == ("num", 2.0) and e[1][0] == "sub" and e[1][1][0] == "var" and e[1][2][0] == "var":
             d = self.e(e[1])
             return None if d is None or not d.startswith("D ") else "Q" + d[1:]
-        return None
+        if e[0] == "div" and e[1][0] == "sum" and e[2][0] == "num":
+            s = self.ts(e[1][1])
+            return None if s is None else f"V {f2hex(e[2][1])} " + s
+        g = self.x(e)
+        return None if g is None else "G " + g
 
     def _vars_in(self, e, acc):
         if e[0] == "var":
@@ -267,30 +296,18 @@ class Canon:
     def row(self, kind: str, s: str):
         sums = self.g.rec_sums
         if kind == "min":
-            raw = self._vars_in(parse_expr(s), set())
-            if any(v in sums for v in raw):
-                return "stub minimize dispersion"
-            if any(self.v(v) is None for v in raw):
-                return "stub minimize hyper"
-            return "stub minimize edge"
+            a = self.e(subst_sums(parse_expr(s), sums))
+            return "?unrecognised " + s.replace(" ", "")[:120] if a is None else "O " + a
         l, cmp_, r = parse_relation(s)
-        ls, rs = subst_sums(l, sums), subst_sums(r, sums)
-        if cmp_ == "EQ":     # GEKKO may print `a == b` with the sides exchanged: equality rows are unordered
-            for side, other in ((r, ls), (l, rs)):
-                if side[0] == "var" and (self.v(side[1]) or "").startswith("d:"):
-                    return "stub disp " + self.v(side[1])[2:]
-                if side[0] == "var" and self.v(side[1]) is None and side[1] not in sums:
-                    names = {self.v(x) or "" for x in self._vars_in(other, set())}
-                    return "stub hyper " + ("x" if any(n.startswith("x:") for n in names) else "y")
-        a, b = self.e(ls), self.e(rs)
+        a, b = self.e(subst_sums(l, sums)), self.e(subst_sums(r, sums))
         if a is None or b is None:
             return "?unrecognised " + s.replace(" ", "")[:120]
-        return norm_row(f"E {cmp_} {a} ; {b}")
+        return norm_row(f"E {cmp_} {a} ; {b}")     # GEKKO may print `a == b` with the sides exchanged
 
     def posted(self, model) -> str:
         def num(x):
             return "-" if x is None else f2hex(float(x))
-        vs = [(self.role[gk], lb, ub) for name, lb, ub, gk, _o in self.g.rec_vars if name is not None]
+        vs = [(self.role.get(gk, "?" + gk), lb, ub) for name, lb, ub, gk, _o in self.g.rec_vars]
         consts = []
         for d, k in ((model.x, "x"), (model.y, "y")):
             consts += [(f"{k}:{m}", v) for m, v in d.items() if isinstance(v, float)]
@@ -325,3 +342,124 @@ class Canon:
             if viol > worst:
                 worst, worst_what = viol, s.replace(" ", "")[:80]
         return {"equations": n, "worst": worst, "where": worst_what}
+
+
+# ------------------------------------------------------------------------------------------------ meaning of a printed row
+def _rd_ts(tk, i):
+    n = int(tk[i]); i += 1
+    out = []
+    for _ in range(n):
+        e, i = _rd_t(tk, i)
+        out.append(e)
+    return out, i
+
+
+def _rd_x(tk, i):
+    k = tk[i]
+    if k == "n":
+        return ("num", hex2f(tk[i + 1])), i + 2
+    if k == "v":
+        return ("var", tk[i + 1]), i + 2
+    if k in ("+", "-", "*", "/"):
+        a, i = _rd_x(tk, i + 1)
+        b, i = _rd_x(tk, i)
+        return ({"+": "add", "-": "sub", "*": "mul", "/": "div"}[k], a, b), i
+    if k == "^2":
+        a, i = _rd_x(tk, i + 1)
+        return ("pow", a, ("num", 2.0)), i
+    raise ValueError("bad expression token " + k)
+
+
+def _rd_t(tk, i):
+    k = tk[i]
+    if k in ("n", "v"):
+        return _rd_x(tk, i)
+    if k == "l":
+        return ("mul", ("num", hex2f(tk[i + 1])), ("var", tk[i + 2])), i + 3
+    if k == "g":
+        return _rd_x(tk, i + 1)
+    raise ValueError("bad element token " + k)
+
+
+def _rd_e(tk, i):
+    k = tk[i]
+    if k in ("n", "v"):
+        return _rd_x(tk, i)
+    if k == "S":
+        l, i = _rd_ts(tk, i + 1)
+        return ("sum", l), i
+    if k in ("K", "V"):
+        c = ("num", hex2f(tk[i + 1]))
+        l, i = _rd_ts(tk, i + 2)
+        return (("mul", c, ("sum", l)) if k == "K" else ("div", ("sum", l), c)), i
+    if k in ("D", "Q"):
+        d = ("sub", ("var", tk[i + 1]), ("var", tk[i + 2]))
+        return (d if k == "D" else ("pow", d, ("num", 2.0))), i + 3
+    if k == "G":
+        return _rd_x(tk, i + 1)
+    raise ValueError("bad row token " + k)
+
+
+def row_tree(row: str):
+    """a row of the `post` reply format -> ('O', tree) | ('LE'|'GE'|'EQ', lhs tree, rhs tree)."""
+    tk = row.split()
+    if tk[0] == "O":
+        e, i = _rd_e(tk, 1)
+        if i != len(tk):
+            raise ValueError("trailing tokens")
+        return ("O", e)
+    if tk[0] == "E":
+        semi = tk.index(";")
+        a, i = _rd_e(tk[:semi], 2)
+        b, j = _rd_e(tk[semi + 1:], 0)
+        if i != semi or j != len(tk) - semi - 1:
+            raise ValueError("trailing tokens")
+        return (tk[1], a, b)
+    raise ValueError("not a row")
+
+
+def _vars_of(e, acc):
+    if e[0] == "var":
+        acc.add(e[1])
+    elif e[0] == "sum":
+        for x in e[1]:
+            _vars_of(x, acc)
+    elif e[0] != "num":
+        for x in e[1:]:
+            _vars_of(x, acc)
+    return acc
+
+
+def rows_same_meaning(a: str, b: str, rng) -> bool:
+    """do two printed rows denote the same function of the variables?  (used only when they are not the same tree: an
+    algebraically equivalent way of writing an equation / objective term must not count as a difference.)  Objective
+    terms: equal values; relations: same comparison and equal `lhs - rhs`, for `==` up to sign; at 4 random points."""
+    try:
+        ta, tb = row_tree(a), row_tree(b)
+    except (ValueError, IndexError):
+        return False
+    if ta[0] != tb[0]:
+        return False
+    names = set()
+    for t in (ta, tb):
+        for e in t[1:]:
+            _vars_of(e, names)
+    signs = set()
+    for _ in range(4):
+        val = {n: rng.uniform(0.05, 4.0) for n in sorted(names)}
+        try:
+            if ta[0] == "O":
+                fa, fb = evaluate(ta[1], val), evaluate(tb[1], val)
+            else:
+                fa = evaluate(ta[1], val) - evaluate(ta[2], val)
+                fb = evaluate(tb[1], val) - evaluate(tb[2], val)
+        except (ZeroDivisionError, OverflowError, KeyError):
+            return False
+        tol = 1e-9 * max(1.0, abs(fa), abs(fb))
+        if abs(fa - fb) <= tol:
+            signs.add(1)
+        elif ta[0] == "EQ" and abs(fa + fb) <= tol:
+            signs.add(-1)
+        else:
+            return False
+    return len(signs) == 1 or ta[0] == "O"
